@@ -75,9 +75,16 @@ struct Seen {
     is_link: bool,
     following: bool,
 }
+thread_local! {
+    /// the real backend reports a link to nothing as neither a directory nor a file (the in-memory one as a file link)
+    static REAL_DANGLING: std::cell::Cell<bool> = std::cell::Cell::new(false);
+}
 fn seen(t: &NTree, k: &str, follow: bool) -> Option<Seen> {
     let n = t.nodes.get(k)?;
     Some(match &n.kind {
+        NKind::Link { target, .. } if REAL_DANGLING.with(|c| c.get()) && !follow && !t.nodes.contains_key(target) => {
+            Seen { path: k.to_string(), alt: target.clone(), is_dir: false, is_file: false, is_link: true, following: false }
+        },
         NKind::Dir => Seen { path: k.to_string(), alt: String::new(), is_dir: true, is_file: false, is_link: false, following: false },
         NKind::File(_) => Seen { path: k.to_string(), alt: String::new(), is_dir: false, is_file: true, is_link: false, following: false },
         NKind::Link { target, dir } => {
@@ -567,6 +574,19 @@ fn c08(ctx: &Ctx, rep: &mut Report) {
             wipe(&sroot);
             materialise_disk(&t, &sroot).is_ok()
         };
+        // every eighth tree that holds links to nothing (and is otherwise expressible) goes to disk too: walked
+        // there without follow, where such a link is an entry of neither kind and still has its place in the order
+        let dangling_on_disk = !on_disk
+            && ti % 8 == 4
+            && t.nodes.values().any(|n| matches!(&n.kind, NKind::Link { target, .. } if !t.nodes.contains_key(target)))
+            && t.nodes.values().all(|n| match &n.kind {
+                NKind::Link { target, .. } => !matches!(t.nodes.get(target), Some(NNode { kind: NKind::Link { .. }, .. })),
+                _ => true,
+            })
+            && {
+                wipe(&sroot);
+                materialise_disk(&t, &sroot).is_ok()
+            };
         let roots: Vec<String> = {
             let mut r = vec!["/".to_string()];
             let keys: Vec<String> = t.nodes.keys().cloned().collect();
@@ -619,6 +639,29 @@ fn c08(ctx: &Ctx, rep: &mut Report) {
                             );
                         }
                     }
+                }
+                if dangling_on_disk && !o.follow {
+                    let mapped_root = if root == "/" { sroot.clone() } else { format!("{}{}", sroot, root) };
+                    REAL_DANGLING.with(|c| c.set(true));
+                    let mut exp = vec![];
+                    let (mut ties, mut budget) = (false, 5000);
+                    ref_walk(&t, root, 0, o, &mut vec![], &mut exp, &mut ties, &mut budget);
+                    REAL_DANGLING.with(|c| c.set(false));
+                    set_case(&format!("walk:stdfs({},links-to-nothing):terminates→stalls", o.class()), &format!("{:?}", o));
+                    let g = run_real(&Stdfs::new(), &mapped_root, o, None, 2 * exp.len() + 8).map(|v| {
+                        v.into_iter()
+                            .map(|i| match i {
+                                WItem::Entry { path, alt, is_dir, is_file, is_link, following } => {
+                                    WItem::Entry { path: unmap_str(&path, &sroot), alt: if alt.is_empty() { alt } else { unmap_str(&alt, &sroot) }, is_dir, is_file, is_link, following }
+                                },
+                                e => e,
+                            })
+                            .collect::<Vec<_>>()
+                    });
+                    rep.eval();
+                    rep.count("real_walks_over_trees_with_links_to_nothing", 1);
+                    rep.key_str(&format!("stdfs-dangling|{}|{}", o.class(), shape));
+                    check_case("stdfs", &t, root, o, &g, &exp, ties, None, rep);
                 }
                 if on_disk && oi % 3 == 0 {
                     let mapped_root = if root == "/" { sroot.clone() } else { format!("{}{}", sroot, root) };
